@@ -1,3 +1,5 @@
+import six
+
 from trashcli.lib.my_input import Input
 from trashcli.put.describer import Describer
 
@@ -12,10 +14,20 @@ class User:
 
 
     def ask_user_about_deleting_file(self, program_name, path):
-        reply = self.input.read_input(
+        reply = self.input.read_input(printable(
             "%s: trash %s '%s'? " % (program_name,
-                                     self.describer.describe(path), path))
+                                     self.describer.describe(path), path)))
         return parse_user_reply(reply)
+
+
+def printable(text):
+    # a file name that is not valid UTF-8 cannot be written to stdout as it is
+    if isinstance(text, six.text_type):
+        try:
+            text.encode('utf-8')
+        except UnicodeEncodeError:
+            return text.encode('utf-8', 'backslashreplace').decode('utf-8')
+    return text
 
 
 user_replied_no = "user_replied_no"
